@@ -110,6 +110,10 @@ func runC08(p *Prog, r *Report) {
 	if want("C08.8") {
 		ruleReadErrorsSurface(p, r, "C08.8")
 	}
+	if want("C08.17") {
+		// a storage read error inside a record is not dressed as a skippable damaged record (shared with C12.10)
+		ruleRecordReaderFailure(p, r, "C08.17")
+	}
 	if want("C08.16") {
 		ruleErrorsPropagate(p, r, "C08.16", []string{"leveldb", "leveldb/journal", "leveldb/table", "leveldb/storage"}, 100)
 	}
